@@ -39,6 +39,9 @@ def norm(p):
 
 class GridWorld(World):
     def sym_cmp(self, op, a, b):
+        for x in (a, b):
+            if isinstance(x, Poly) and any(v.startswith("truncated<") for mono in x.terms for v in mono):
+                return op in ("!=", "<", "<=")        # a poisoned step: any outcome ends in a mismatch
         if op in ("!=", "==") and (b == 0 or a == 0):
             x = a if b == 0 else b
             if isinstance(x, Poly):
@@ -72,6 +75,10 @@ class GridWorld(World):
 
     def external(self, it, fn, call, frame):
         return NOT_HANDLED
+
+    def narrow_cast(self, it, type_str, value, where):
+        # axis lengths are unbounded: a step of N - 1 nodes does not fit a narrower integer type
+        return Poly.sym("truncated<%s>(%s)" % (type_str, value))
 
 
 def expected_offsets(rc, vloop, hloop, code, dr=DR, dc=DC):
@@ -262,6 +269,7 @@ def run(db, chk):
                            detail="; ".join(bad), extra={"unit": uname})
         # ---- G2
         C09.purity(db, eff, chk, uname, "C07-G2")
+        C09.cache_hit_rule(db, chk, uname, "C07-G2")
         # ---- G3: accessors share their sources
         accessors = [f for f in db.fns(unit=uname) if f.cls in ("fastscapelib::grid", "fastscapelib::raster_grid")
                      and f.name in ("neighbors_indices", "neighbors", "neighbors_distances") and not f.is_lambda]
